@@ -28,6 +28,12 @@ package httpserver
 // the limiter's marker is accepted as well (limiter state is shared between
 // generations by design); Proxy — any server of the held generation's pool.
 //
+// Proxy variants 6/7 carry a resilience section (retry / circuit breaker
+// policies, pool timeout, failureCodes) that changes across the generations and
+// requests whose first backend attempts fail; they are judged by the reference
+// model in c11_resil_test.go in addition to the twin (classes
+// C11.pipe.resilience-*/Proxy).
+//
 //	C11.old-generation-panic/<Kind>     panic in a request running on a generation some newer generation has inherited from
 //	C11.pipe.panic/<Kind>               panic in a request on a generation nobody inherited from yet
 //	C11.inherit-panic/<Kind>            Pipeline.Inherit panicked
@@ -215,6 +221,12 @@ func c11GenPipe(rng *sim.Rand) *c11PipeSc {
 	// resilience-observable flavour: every Proxy generation is variant 6 or 7,
 	// requests carry fail scripts for the backend
 	resObs := sc.Kind == "Proxy" && rng.Bool(0.65)
+	if os.Getenv("VERIF_C11_ONLYRES") != "" {
+		sc.Kind, resObs = "Proxy", true
+	}
+	if os.Getenv("VERIF_C11_NORES") != "" {
+		resObs = false // development aid: run-rate comparison without the resilience flavour
+	}
 	pTight := []float64{0, 0.15, 0.5}[rng.Intn(3)]
 	// breaker focus: the tight breaker is ADDED (and removed again) by updates, so
 	// that its reference state is exact in the generation built by Inherit
@@ -1107,9 +1119,9 @@ func c11ExecPipe(r *sim.Run, sc *c11PipeSc) {
 							r.Probe("c11.pipe.resil.short_circuit_forbidden")
 						}
 						switch {
-						case len(tried) == 0:
-							r.Violate("C11.pipe.resilience-breaker/Proxy", "%s\nanswered %d without any backend attempt, but nothing in the spec of generation %d allows to short-circuit this call (breaker %q, failed flags of the calls so far %v); expected %v\nspec g%d: %s",
-								where, rec.Code, g, pr.CB, tr.last, want, g, texts[g])
+						case len(tried) == 0 && pr.CB == "tight":
+							r.Violate("C11.pipe.resilience-breaker/Proxy", "%s\nanswered %d without any backend attempt, but the breaker of generation %d cannot be open (failed flags of the strictly sequential calls so far %v); expected %v\nspec g%d: %s",
+								where, rec.Code, g, tr.last, want, g, texts[g])
 							return
 						case len(tried) != want.attempts:
 							r.Violate("C11.pipe.resilience-attempts/Proxy", "%s\nthe backend was tried %d time(s) %v, the spec of generation %d requires %v; status %d\nspec g%d: %s",
